@@ -255,6 +255,20 @@ CHECKS["C17"] = dict(
           "operation's postcondition re-establishes referential integrity (its precondition)."),
     ref="DESIGN.md section 4 C17")
 
+CHECKS["C18"] = dict(
+    engine="E5",
+    technique="contract-based deductive verification over abstract data frames: add_branch_component / init_par are evaluated symbolically for every branch component class (any table contents), the recorded edge arrays are compared with the solver-side schema proved in C04/C06/C17 (end columns, activity column, pipe-attached valves, flow-return components, slack definition); unsupplied_junctions' root set is evaluated the same way; bounded native comparison with the pipeflow",
+    text=("Proved for arbitrary table contents and every branch component class: create_nxgraph's edge arrays hold one edge per row between the "
+          "class's from/to junction columns (the columns the pit construction translates), keyed by the row label, with status = the "
+          "class's activity column (valve: opened) when respected and all rows otherwise; pipe-attached valves add no edge and a closed one "
+          "switches its pipe's edge off; unsupplied_junctions roots the search at in-service external grids of type p/pt and flow junctions of "
+          "in-service circulation pumps, the solver's slack definition (C04)."),
+    note=(TB + "ASSUMED (A4): pandapower's get_edge_table / add_edges (one graph edge per row with status True, nodes removed for out-of-service "
+          "junctions) and networkx' connected_components / Dijkstra. The include_* / respect_status_* keyword plumbing of create_nxgraph (locals(), "
+          "string formatting), junction removal, distances and the island agreement itself are exercised only by the BOUNDED native stand-in "
+          "(512 flag patterns of one gas network; not proved). Known finding F31: flow-return components connect in the graph but not in the solver."),
+    ref="DESIGN.md section 4 C18")
+
 NOT_APPLICABLE = {
     "C08": "uniqueness of the solution of the nonlinear system within tolerances and convergence of damped Newton in floating point: a whole-history/analytic property, no pre/post contract within reach expresses it (DESIGN.md section 5)",
     "C15": "the save/load round trip is the behaviour of pandapower/pandas/json/pickle/scipy object state; a contract strong enough would have to assume the property (DESIGN.md section 5)",
